@@ -768,6 +768,21 @@ def main():
         unknown = [p for p in probs if not ck.match_known("%s:%s:%s" % ("schedule-dependent-tie-order" if p.get("kind") == "tie-order" else "monitor", mode, p.get("line_name") or ""))]
         ck.oblige("monitor %s: OMP_NUM_THREADS in %s agree with 1 thread (%s)%s" % (mode, THREADS, "exact" if tol == 0 else "1e-12",
                   "" if len(unknown) == len(probs) else " except known findings"), not unknown, "%d problems" % len(probs))
+    # corpus: (mode, seed, reps) triples that once exposed a defect are re-run on every run
+    cfile = os.path.join(ROOT, "corpus", PID, "thread_monitor_seeds.txt")
+    if os.path.exists(cfile) and not ck.replay:
+        ncorp = 0; cprobs = []
+        for l in open(cfile):
+            t = l.split("#")[0].split()
+            if len(t) != 3: continue
+            n, probs = compare_threads(ck, exe, t[0], int(t[1]), int(t[2]), 0 if t[0] in ("det", "snn", "share") else 1e-12)
+            evals += n; ncorp += 1
+            for p in probs[:2]:
+                cprobs.append(p)
+                ck.violation("monitor:%s:%s" % (t[0], p.get("line_name") or (p.get("observed") or p.get("what", "")).split(" ")[0]),
+                             {"mode": t[0], "seed": int(t[1]), "problem": p, "replay_cmd": "OMP_NUM_THREADS=%s %s %s %s %s" % (p["threads"], exe, t[0], t[1], t[2])},
+                             "thread-count monitor (%s, corpus): %s" % (t[0], json.dumps(p)[:500]))
+        ck.oblige("corpus of %d thread-monitor seeds that once exposed a defect" % ncorp, not cprobs, "%d problems" % len(cprobs))
     if ck.replay and not ck.replay.endswith(".txt"):
         # replay file = a violation json written earlier: re-run its command
         rp = json.load(open(ck.replay)); cmd = (rp.get("witness") or rp).get("replay_cmd")
